@@ -6,6 +6,7 @@ import (
 	"os"
 	"path/filepath"
 	"regexp"
+	"sort"
 	"strconv"
 	"strings"
 	"sync"
@@ -37,12 +38,17 @@ type cliDiag struct {
 
 // runCompile runs the real binary with all six outputs requested.
 func runCompile(ctx *core.Ctx, bin, text string) compileRun {
+	return runCompileFlags(ctx, bin, text, []string{"-l", "o/lua", "-r", "o/rs", "-g", "o/go", "-j", "o/java", "-p", "o/py", "-c", "o/cpp"})
+}
+
+// runCompileFlags compiles text with the given output flags (possibly none).
+func runCompileFlags(ctx *core.Ctx, bin, text string, flags []string) compileRun {
 	dir := ctx.TempPath(".c")
 	os.MkdirAll(dir, 0o755)
 	defer os.RemoveAll(dir)
 	file := filepath.Join(dir, "in.dsl")
 	os.WriteFile(file, []byte(text), 0o644)
-	cctx, cmd := cmdWithTimeout(120*time.Second, bin, "compile", "-f", file, "-l", "o/lua", "-r", "o/rs", "-g", "o/go", "-j", "o/java", "-p", "o/py", "-c", "o/cpp")
+	cctx, cmd := cmdWithTimeout(120*time.Second, bin, append([]string{"compile", "-f", file}, flags...)...)
 	var so, se bytes.Buffer
 	cmd.Stdout = &limitedBuf{b: &so, max: 1 << 18}
 	cmd.Stderr = &limitedBuf{b: &se, max: 1 << 16}
@@ -114,6 +120,52 @@ func C12(ctx *core.Ctx) int {
 		c12Fault(ctx, bin, faults[i], &outcomes)
 		atomic.AddInt64(&evals, 1)
 	})
+	// rejection does not depend on which outputs were requested: one fault of every class, compiled with no
+	// output flag at all and with each single one
+	{
+		perClass := map[string]Fault{}
+		for _, f := range faults {
+			base := f.Name[:strings.Index(f.Name, "/"+f.Class+"/")]
+			if _, bad := badBase.Load(base); bad {
+				continue
+			}
+			if _, ok := perClass[f.Class]; !ok {
+				perClass[f.Class] = f
+			}
+		}
+		var classes []string
+		for c := range perClass {
+			classes = append(classes, c)
+		}
+		sort.Strings(classes)
+		flagSets := [][]string{{}, {"-l", "o/lua"}, {"-r", "o/rs"}, {"-g", "o/go"}, {"-j", "o/java"}, {"-p", "o/py"}, {"-c", "o/cpp"}}
+		type job struct {
+			f     Fault
+			flags []string
+		}
+		var jobs []job
+		for _, c := range classes {
+			for _, fl := range flagSets {
+				jobs = append(jobs, job{perClass[c], fl})
+			}
+		}
+		core.Parallel(len(jobs), func(i int) {
+			j := jobs[i]
+			r := runCompileFlags(ctx, bin, j.f.Text, j.flags)
+			atomic.AddInt64(&evals, 1)
+			which := "no output flag"
+			if len(j.flags) > 0 {
+				which = "only " + j.flags[0]
+			}
+			if r.crashed || r.timeout {
+				return // C11
+			}
+			if r.exit == 0 || len(r.diags) == 0 || len(r.files) > 0 {
+				ctx.Report(fmt.Sprintf("%s|not rejected when the compiler is run with %s (exit %d, %d diagnostics, %d files)", j.f.Class, which, r.exit, len(r.diags), len(r.files)),
+					fmt.Sprintf("%s\n%s", j.f.Name, core.Trunc(j.f.Text, 500)), map[string]any{"fault": j.f, "name": j.f.Name, "text": j.f.Text, "flags": j.flags})
+			}
+		})
+	}
 	// well-formed programs must be accepted
 	var accepts []struct{ name, text, kind string }
 	for _, p := range faultBasePrograms(ctx) {
